@@ -52,18 +52,20 @@ Proof.
 Qed.
 
 (* the column loop of RecordArray::mergemany, named *)
-Fixpoint cols_loop (rec : list content -> res content) (tuple : bool) (nf : nat) (myks : list name) (head : list content)
-         (n : Z) (i : nat) (l : list content) (kl : list name) {struct l} : res (list content) :=
-  match l with
-  | [] => Ok []
-  | f :: fs =>
-      let k := hd [] kl in
-      do t0 <- trim n f;
-      do rest <- mapM (rec_column tuple nf myks i k) head;
-      do m <- rec (t0 :: concat rest);
-      do ms <- cols_loop rec tuple nf myks head n (S i) fs (tl kl);
-      Ok (m :: ms)
-  end.
+Section ColsDef.
+  Variables (rec : list content -> res content) (tuple : bool) (nf : nat) (myks : list name) (head : list content) (n : Z).
+  Fixpoint cols_loop (i : nat) (l : list content) (kl : list name) {struct l} : res (list content) :=
+    match l with
+    | [] => Ok []
+    | f :: fs =>
+        let k := hd [] kl in
+        do t0 <- trim n f;
+        do rest <- mapM (rec_column tuple nf myks i k) head;
+        do m <- rec (t0 :: concat rest);
+        do ms <- cols_loop (S i) fs (tl kl);
+        Ok (m :: ms)
+    end.
+End ColsDef.
 
 Lemma hd_skipn {A} (d : A) : forall l i, hd d (skipn i l) = nth i l d.
 Proof. induction l as [|x l IH]; intros [|i]; cbn; auto. Qed.
@@ -78,3 +80,247 @@ Proof.
   - inversion H; subst. repeat split; lia.
   - destruct (IH _ _ _ H) as (H1 & H2 & H3). repeat split; auto. lia.
 Qed.
+Lemma skipn_nth_cons {A} (d : A) : forall l i, (i < length l)%nat -> skipn i l = nth i l d :: skipn (S i) l.
+Proof.
+  induction l as [|x l IH]; intros [|i] H; cbn in H; try lia; [reflexivity|].
+  change (skipn (S i) (x :: l)) with (skipn i l). rewrite (IH i) by lia. reflexivity.
+Qed.
+
+Lemma mm_record_unfold rec a cs ks n others :
+  mm_record rec a cs ks n others =
+  let (head, tail) := split_head stop_basic others in
+  let tuple := match ks with None => true | Some _ => false end in
+  let myks := match ks with Some k => k | None => [] end in
+  do _ <- mapM (fun x => match body x with
+                         | Record cs' ks' _ =>
+                             match tuple, ks' with
+                             | true, None => if Nat.eqb (length cs') (length cs) then Ok tt else Err EValue
+                             | false, Some k' => if same_keys myks k' then Ok tt else Err EValue
+                             | _, _ => Err EValue
+                             end
+                         | Empty => Ok tt
+                         | _ => Err EValue
+                         end) head;
+  do merged <- cols_loop rec tuple (length cs) myks head n O cs myks;
+  let minlength :=
+    match merged with
+    | [] => n + sumZ (map clen head)
+    | m :: ms => fold_left (fun acc x => Z.min acc (clen x)) ms (clen m)
+    end in
+  let ps := if tuple then fold_left (fun acc x => merge_pars acc (params x)) head (params a) else params a in
+  finish rec (mkpar ps (Record merged ks minlength)) tail.
+Proof. reflexivity. Qed.
+
+Section ColsLoop.
+  Variables (rec : list content -> res content) (tuple : bool) (myks : list name) (head : list content) (n : Z).
+  Variables (m : nat) (fs : list content) (T0 : nat -> content) (TC : nat -> content -> content) (M : nat -> content).
+  Hypothesis Hfs : length fs = m.
+  Hypothesis HT0 : forall i, (i < m)%nat -> trim n (nth i fs Empty) = Ok (T0 i).
+  Hypothesis HTC : forall i x, (i < m)%nat -> In x head -> rec_column tuple m myks i (nth i myks []) x = Ok [TC i x].
+  Hypothesis HM : forall i, (i < m)%nat -> rec (T0 i :: map (TC i) head) = Ok (M i).
+
+  Lemma cols_loop_ok : forall k i, (k = m - i)%nat -> (i <= m)%nat ->
+    cols_loop rec tuple m myks head n i (skipn i fs) (skipn i myks) = Ok (map M (seq i k)).
+  Proof.
+    induction k as [|k IH]; intros i Hk Hi.
+    - rewrite skipn_all2 by lia. reflexivity.
+    - rewrite (skipn_nth_cons Empty fs i) by lia. cbn [cols_loop]. rewrite hd_skipn, HT0 by lia. cbn [bind].
+      rewrite (mapM_singletons _ (TC i)).
+      2:{ apply Forall_forall. intros x Hx. apply HTC; [lia|exact Hx]. }
+      cbn [bind]. rewrite concat_singletons, HM by lia. cbn [bind].
+      rewrite tl_skipn, (IH (S i)) by lia. reflexivity.
+  Qed.
+End ColsLoop.
+
+Lemma need2_nth ss i : (i < length ss)%nat ->
+  (need2 (nth i ss (KOld SNum)) <= fold_right (fun x acc => Nat.max (need2 x) acc) O ss)%nat.
+Proof.
+  revert i. induction ss as [|s ss IH]; intros i Hi; cbn in Hi; [lia|]. cbn [fold_right nth]. destruct i; [lia|].
+  specialize (IH i ltac:(lia)). lia.
+Qed.
+
+Lemma fold_min_const (ms : list content) t : Forall (fun x => clen x = t) ms -> forall acc, acc = t ->
+  fold_left (fun acc x => Z.min acc (clen x)) ms acc = t.
+Proof. induction 1 as [|x ms Hx _ IH]; intros acc ->; cbn; [reflexivity|]. apply IH. lia. Qed.
+
+Lemma zlen_concat_clen (g : content -> list value) l :
+  (forall x, In x l -> zlen (g x) = clen x) -> zlen (concat (map g l)) = sumZ (map clen l).
+Proof.
+  induction l as [|x l IH]; intros H; [reflexivity|]. cbn [map concat sumZ fold_right]. fold (sumZ (map clen l)).
+  rewrite zlen_app, IH by (intros; apply H; now right). rewrite (H x) by now left. reflexivity.
+Qed.
+
+Lemma mm_step_record rec fs ks n others : others <> [] ->
+  mm_step rec (Record fs ks n :: others) = mm_record rec (Record fs ks n) fs ks n others.
+Proof. destruct others; [congruence|reflexivity]. Qed.
+
+Definition colvals (ks : option (list name)) (i : nat) (x : content) : list value := take (clen x) (vals (colf ks i x)).
+
+Theorem mm_k s : forall f a others,
+  (need2 s <= f)%nat -> ok2 s = true -> others <> [] ->
+  hasS s a = true -> Forall (fun c => hasL s c = true) (a :: others) ->
+  Forall (fun c => valid_b c = true) (a :: others) -> Forall tl_ok (a :: others) ->
+  exists c, mm f (a :: others) = Ok c /\ hasS s c = true /\ valid_b c = true /\
+            to_list c = Ok (concat (map (fun x => map (dcast (dtree c)) (vals x)) (a :: others))).
+Proof.
+  induction s as [s'|ks ss IH] using sk2_ind'; intros f a others Hf Hok Hne HaS HL Hv Ht.
+  - (* record-free: Proofs_MM.mm_sk *)
+    cbn in Hf, Hok, HaS. 
+    destruct (mm_sk s' f (a :: others)) as (c & H1 & H2 & H3 & H4 & _); auto.
+    { destruct others; [congruence|cbn; lia]. }
+    exists c. split; [exact H1|]. split; [exact H2|]. split; [apply H4; exact Hok|].
+    rewrite H3. f_equal. f_equal. apply map_ext. intros x. apply map_ext. intros v.
+    rewrite (dtree_sk _ _ H2). symmetry. apply dcast_DL.
+  - (* records *)
+    destruct f as [|f']; [cbn in Hf; lia|]. cbn [need2] in Hf.
+    destruct a as [| | | | | | | | | | |fs ksa n|]; cbn [hasS] in HaS; try discriminate.
+    apply andb_true_iff in HaS. destruct HaS as [HaS HaA]. apply andb_true_iff in HaS. destruct HaS as [Hke Hkk].
+    assert (ksa = ks).
+    { destruct ks as [k|], ksa as [k'|]; cbn in Hke; try discriminate; [|reflexivity]. apply keys_eqb_eq in Hke. now subst. }
+    subst ksa.
+    assert (Hkeys : keys_ok ks (length ss)).
+    { destruct ks as [k|]; [|exact I]. apply andb_true_iff in Hkk. destruct Hkk as [Hk1 Hk2]. apply Nat.eqb_eq in Hk2. split; auto. }
+    destruct (all2_nth _ _ _ HaA) as [Hlfs HaN].
+    set (a := Record fs ks n) in *. set (cs_all := a :: others) in *. set (m := length ss) in *.
+    assert (Hx : forall x, In x cs_all -> hasL (KRec ks ss) x = true /\ valid_b x = true /\ tl_ok x).
+    { intros x Hx. rewrite Forall_forall in HL, Hv, Ht. auto. }
+    set (M := fun i => match mm f' (map (tcol ks i) cs_all) with Ok c => c | Err _ => Empty end).
+    assert (Hcolf_a : forall i, (i < m)%nat -> colf ks i a = nth i fs Empty).
+    { intros i Hi. unfold colf, a. cbn [rkeys rfields]. destruct ks as [k|]; [|reflexivity].
+      destruct Hkeys as [Hk1 Hk2]. rewrite find_field_nth by (auto; lia). reflexivity. }
+    assert (Hcol : forall i, (i < m)%nat ->
+              mm f' (map (tcol ks i) cs_all) = Ok (M i) /\ hasS (nth i ss (KOld SNum)) (M i) = true /\ valid_b (M i) = true /\
+              to_list (M i) = Ok (concat (map (fun x => map (dcast (dtree (M i))) (colvals ks i x)) cs_all))).
+    { intros i Hi. rewrite Forall_forall in IH.
+      assert (Hin : In (nth i ss (KOld SNum)) ss) by (apply nth_In; exact Hi).
+      destruct (IH _ Hin f' (tcol ks i a) (map (tcol ks i) others)) as (c & Hc1 & Hc2 & Hc3 & Hc4).
+      - pose proof (need2_nth ss i Hi). lia.
+      - cbn [ok2] in Hok. rewrite forallb_forall in Hok. auto.
+      - destruct others; [congruence|discriminate].
+      - destruct (Hx a (or_introl eq_refl)) as (Ha1 & Ha2 & Ha3).
+        destruct (tcol_ok _ _ _ _ Ha1 Ha2 Ha3 Hi Hkeys) as (_ & _ & _ & _ & _ & _ & _ & Hs).
+        apply Hs. rewrite Hcolf_a by exact Hi. apply HaN. exact Hi.
+      - change (tcol ks i a :: map (tcol ks i) others) with (map (tcol ks i) cs_all).
+        apply Forall_forall. intros y Hy. apply in_map_iff in Hy. destruct Hy as (x & <- & Hxin).
+        destruct (Hx x Hxin) as (Ha1 & Ha2 & Ha3). destruct (tcol_ok _ _ _ _ Ha1 Ha2 Ha3 Hi Hkeys). tauto.
+      - change (tcol ks i a :: map (tcol ks i) others) with (map (tcol ks i) cs_all).
+        apply Forall_forall. intros y Hy. apply in_map_iff in Hy. destruct Hy as (x & <- & Hxin).
+        destruct (Hx x Hxin) as (Ha1 & Ha2 & Ha3). destruct (tcol_ok _ _ _ _ Ha1 Ha2 Ha3 Hi Hkeys). tauto.
+      - change (tcol ks i a :: map (tcol ks i) others) with (map (tcol ks i) cs_all).
+        apply Forall_forall. intros y Hy. apply in_map_iff in Hy. destruct Hy as (x & <- & Hxin).
+        destruct (Hx x Hxin) as (Ha1 & Ha2 & Ha3).
+        destruct (tcol_ok _ _ _ _ Ha1 Ha2 Ha3 Hi Hkeys) as (_ & _ & _ & _ & Htl & _). eexists; exact Htl.
+      - change (tcol ks i a :: map (tcol ks i) others) with (map (tcol ks i) cs_all) in *.
+        unfold M. rewrite Hc1. repeat split; auto. rewrite Hc4. f_equal. rewrite map_map. f_equal.
+        apply map_ext_in. intros x Hxin. destruct (Hx x Hxin) as (Ha1 & Ha2 & Ha3).
+        destruct (tcol_ok _ _ _ _ Ha1 Ha2 Ha3 Hi Hkeys) as (_ & _ & _ & _ & Htl & _).
+        rewrite (vals_ok _ _ Htl). reflexivity. }
+    (* lengths *)
+    set (total := sumZ (map clen cs_all)).
+    assert (Hclen : forall i x, (i < m)%nat -> In x cs_all -> zlen (colvals ks i x) = clen x /\ 0 <= clen x).
+    { intros i x Hi Hxin. destruct (Hx x Hxin) as (Ha1 & Ha2 & Ha3).
+      destruct (tcol_ok _ _ _ _ Ha1 Ha2 Ha3 Hi Hkeys) as (_ & _ & _ & _ & _ & Hle & Hnn & _).
+      unfold colvals. rewrite Proofs_Lists.zlen_take by lia. lia. }
+    assert (HclenM : forall i, (i < m)%nat -> clen (M i) = total).
+    { intros i Hi. destruct (Hcol i Hi) as (_ & _ & _ & Htl). rewrite <- (to_list_len _ _ Htl).
+      unfold total. apply zlen_concat_clen. intros x Hxin. rewrite zlen_map. apply Hclen; assumption. }
+    set (merged := map M (seq 0 m)).
+    set (Ts := map dtree merged).
+    assert (HTs : forall i, (i < m)%nat -> nth i Ts (DL DBool) = dtree (M i)).
+    { intros i Hi. unfold Ts, merged. rewrite map_map.
+      rewrite (nth_indep _ (DL DBool) (dtree (M 0%nat))) by (rewrite map_length, seq_length; exact Hi).
+      rewrite (map_nth (fun j => dtree (M j)) (seq 0 m) 0%nat i), seq_nth by exact Hi. reflexivity. }
+    exists (Record merged ks total).
+    assert (Hstop : Forall (fun x => stop_basic x = false) others).
+    { apply Forall_forall. intros x Hxin. destruct (Hx x (or_intror Hxin)) as (Ha1 & _).
+      destruct x; cbn [hasL] in Ha1; try discriminate. reflexivity. }
+    split; [|split; [|split]].
+    + (* the computation *)
+      cbn [mm]. unfold cs_all, a. rewrite mm_step_record by exact Hne. fold a.
+      rewrite mm_record_unfold. rewrite split_head_none by exact Hstop.
+      cbv zeta.
+      match goal with |- context [mapM ?chk others] => assert (Hchk : exists u, mapM chk others = Ok u) end.
+      { apply Proofs_MM.mapM_total. intros x Hxin.
+        destruct (Hx x (or_intror Hxin)) as (Ha1 & Ha2 & Ha3).
+        destruct x; cbn [hasL] in Ha1; try discriminate. apply andb_true_iff in Ha1. destruct Ha1 as [_ Ha1]. cbn [body].
+        destruct ks as [k|], keys as [k'|]; try discriminate.
+        - apply andb_true_iff in Ha1. destruct Ha1 as [Ha1 _]. apply andb_true_iff in Ha1. destruct Ha1 as [Ha1 _].
+          rewrite Ha1. eauto.
+        - destruct (all2_nth _ _ _ Ha1) as [Hl _].
+          replace (Nat.eqb (length cs) (length fs)) with true by (symmetry; apply Nat.eqb_eq; lia). eauto. }
+      destruct Hchk as [u ->]. cbn [bind].
+      assert (Hn_a : clen a = n) by reflexivity.
+      rewrite <- (firstn_skipn 0 fs) at 2. cbn [firstn app].
+      replace (match ks with Some k => k | None => [] end) with (skipn 0 (match ks with Some k => k | None => [] end)) at 2 by reflexivity.
+      replace (length fs) with m by (unfold m; lia).
+      rewrite (cols_loop_ok (mm f') _ _ others n m fs (fun i => tcol ks i a) (tcol ks) M) with (k := m); try lia.
+      * fold merged. cbn [bind].
+        assert (Hmin : match merged with
+                       | [] => n + sumZ (map clen others)
+                       | m0 :: ms => fold_left (fun acc x => Z.min acc (clen x)) ms (clen m0)
+                       end = total).
+        { unfold merged, total, cs_all. destruct m as [|m'] eqn:Em.
+          - cbn [seq map]. cbn [sumZ fold_right map]. reflexivity.
+          - cbn [seq map]. apply fold_min_const; [|apply HclenM; lia].
+            apply Forall_forall. intros y Hy. apply in_map_iff in Hy. destruct Hy as (i & <- & Hi). apply in_seq in Hi.
+            apply HclenM. lia. }
+        rewrite Hmin.
+        assert (Hps : (if match ks with Some _ => false | None => true end
+                       then fold_left (fun acc x => merge_pars acc (params x)) others (params a) else params a) = nopar).
+        { destruct ks; [reflexivity|]. apply fold_params_nopar. apply Forall_forall. intros x Hxin.
+          destruct (Hx x (or_intror Hxin)) as (Ha1 & _). destruct x; cbn [hasL] in Ha1; try discriminate. reflexivity. }
+        rewrite Hps. reflexivity.
+      * intros i Hi. destruct (Hx a (or_introl eq_refl)) as (Ha1 & Ha2 & Ha3).
+        destruct (tcol_ok _ _ _ _ Ha1 Ha2 Ha3 Hi Hkeys) as (Htr & _). rewrite Hcolf_a, Hn_a in Htr by exact Hi. exact Htr.
+      * intros i x Hi Hxin. destruct (Hx x (or_intror Hxin)) as (Ha1 & Ha2 & Ha3).
+        destruct (tcol_ok _ _ _ _ Ha1 Ha2 Ha3 Hi Hkeys) as (Htr & _).
+        destruct (operand_cols _ _ _ _ Ha1 Ha2 Ha3 Hi Hkeys) as (_ & _ & (cs' & ks' & len' & -> & Hk')).
+        unfold rec_column. cbn [body]. unfold colf in Htr. cbn [rkeys rfields clen] in Htr.
+        destruct ks as [k|], ks' as [k'|]; try contradiction.
+        -- destruct Hk' as [Hk1 Hk2]. rewrite Hk1. cbn [negb].
+           cbn [hasL] in Ha1. apply andb_true_iff in Ha1. destruct Ha1 as [_ Ha1]. apply andb_true_iff in Ha1. destruct Ha1 as [_ Ha1].
+           destruct (all2_nth _ _ _ Ha1) as [_ Hnn]. specialize (Hnn i (KOld SNum) [] Hi). cbn beta in Hnn.
+           destruct (find_field (nth i k []) k' cs') as [f0|] eqn:E; [|discriminate]. rewrite Htr. reflexivity.
+        -- replace (Nat.eqb (length cs') m) with true by (symmetry; apply Nat.eqb_eq; unfold m; lia). cbn [negb].
+           rewrite (nth_error_nth' cs' Empty) by (unfold m in Hi; lia). rewrite Htr. reflexivity.
+      * intros i Hi. destruct (Hcol i Hi) as (Hc1 & _). exact Hc1.
+    + (* shape *)
+      cbn [hasS]. apply andb_true_iff. split; [apply andb_true_iff; split|].
+      * destruct ks as [k|]; cbn [opt_eqb]; [apply keys_eqb_refl|reflexivity].
+      * exact Hkk.
+      * apply (all2_of_nth _ (KOld SNum) Empty); [unfold merged; rewrite map_length, seq_length; reflexivity|].
+        intros i Hi. unfold merged.
+        rewrite (nth_indep _ Empty (M 0%nat)) by (rewrite map_length, seq_length; exact Hi).
+        rewrite (map_nth M (seq 0 m) 0%nat i), seq_nth by exact Hi. destruct (Hcol i Hi) as (_ & Hc2 & _). exact Hc2.
+    + (* validity *)
+      assert (Htot : 0 <= total).
+      { unfold total. clear -Hx. induction cs_all as [|x l IHl]; [cbn; lia|]. cbn [map sumZ fold_right]. fold (sumZ (map clen l)).
+        assert (0 <= clen x).
+        { destruct (Hx x (or_introl eq_refl)) as (Ha1 & Ha2 & Ha3). destruct x; cbn [hasL] in Ha1; try discriminate.
+          destruct (record_parts _ _ _ Ha2 Ha3). cbn [clen]. lia. }
+        specialize (IHl ltac:(intros; apply Hx; now right)). lia. }
+      rewrite valid_Record.
+      assert (H1 : forallb (fun x => total <=? clen x) merged = true).
+      { apply forallb_forall. intros y Hy. apply in_map_iff in Hy. destruct Hy as (i & <- & Hi). apply in_seq in Hi.
+        rewrite HclenM by lia. lia. }
+      assert (H2 : forallb valid_b merged = true).
+      { apply forallb_forall. intros y Hy. apply in_map_iff in Hy. destruct Hy as (i & <- & Hi). apply in_seq in Hi.
+        destruct (Hcol i ltac:(lia)) as (_ & _ & Hc3 & _). exact Hc3. }
+      rewrite H1, H2. unfold merged. rewrite map_length, seq_length.
+      destruct ks as [k|]; [destruct Hkeys as [_ Hk2]; rewrite Hk2, Nat.eqb_refl|]; lia.
+    + (* values *)
+      rewrite to_list_Record'.
+      change (dtree (Record merged ks total)) with (DR ks Ts).
+      set (B := fun (x : content) (i : nat) => map (dcast (nth i Ts (DL DBool))) (colvals ks i x)).
+      assert (HV : mapM to_list merged = Ok (map (fun i => concat (map (fun x => B x i) cs_all)) (seq 0 m))).
+      { unfold merged. rewrite mapM_map. rewrite <- mapM_Ok. apply mapM_ext. intros i Hi. apply in_seq in Hi.
+        destruct (Hcol i ltac:(lia)) as (_ & _ & _ & Hc4). rewrite Hc4. unfold B. rewrite HTs by lia. reflexivity. }
+      rewrite HV. cbn [bind].
+      destruct (rows_concat ks (seq 0 m) B clen (fun x => map (dcast (DR ks Ts)) (vals x)) cs_all) as [HR HR0].
+      { apply Forall_forall. intros x Hxin. destruct (Hx x Hxin) as (Ha1 & Ha2 & Ha3). split; [|split].
+        - destruct x; cbn [hasL] in Ha1; try discriminate. destruct (record_parts _ _ _ Ha2 Ha3). cbn [clen]. lia.
+        - apply Forall_forall. intros i Hi. apply in_seq in Hi. unfold B. rewrite zlen_map. apply Hclen; [lia|exact Hxin].
+        - unfold B, colvals. apply operand_rows; auto. unfold Ts, merged. rewrite !map_length, seq_length. reflexivity. }
+      fold total in HR, HR0. replace (total <? 0) with false by lia. exact HR.
+Qed.
+
